@@ -5,10 +5,14 @@
    complementary objects, set(Id), copy, deepCopy, deepCopyTo, reassignIds, the object_creation helpers - WF holds.
    Proved: for every history of the twelve calls of [exec] (create, Document::add/remove, add/set/remove/unset/clear of
    all fifteen reference kinds incl. complementary objects and the stream/track protocol, set(Id), getSilent, lookup),
-   any length, any number of elements and documents, ending at the first exception: theorem named _partial because
-   the extended calls of Heap/More.v (copy, deepCopy(To), reassignIds, object_creation) are covered only by the
-   differential run.  The plans interpreted by the model are regenerated from src/document.cpp on every run. *)
-From Adm Require Import Heap.Exec gen.PlansGen Heap.PlanChecks Heap.Frame Heap.WF.
+   any length, any number of elements and documents, ending at the first exception; and (Heap/WFExt.v) for the
+   extended calls of Heap/More.v as well - add(block), time setters, element copy(), deepCopyTo, reassignIds,
+   updateBlockFormatDurations, route tracing and the object_creation helpers (which are sequences of these calls).
+   The theorems keep the suffix _partial because one listed call, Document::deepCopy, is not covered: it sets the
+   parents of the copies directly, which needs the fact that the re-created references of the copies stay among the
+   copies; that call is covered by the differential run only.
+   The plans interpreted by the model are regenerated from src/document.cpp on every run. *)
+From Adm Require Import Heap.Exec Heap.More gen.PlansGen Heap.PlanChecks Heap.Frame Heap.WF Heap.WFExt.
 
 Theorem C03_plans_recognised : plans_problems = [] /\ add_plan_complete gen_plans = true /\ plans_typed gen_plans = true
   /\ remove_plan_complete gen_plans = true /\ uid_rule gen_plans = true.
@@ -28,6 +32,27 @@ Theorem C03_step : forall P, add_plan_complete P = true -> remove_plan_complete 
   uid_rule P = true -> forall o s s' v, WF s -> exec P o s = (s', inl v) -> WF s'.
 Proof. exact (fun P H1 H2 H3 H4 o s s' v => wf_step P H1 H2 H3 H4 o s s' v). Qed.
 Print Assumptions C03_step.
+
+(* the extended calls: every successful call other than Document::deepCopy keeps the invariant ... *)
+Theorem C03_extended_step_partial : forall o s s' v, is_deep_copy o = false -> WF s ->
+  xexec gen_plans o s = (s', inl v) -> WF s'.
+Proof. exact (xwf_step gen_plans gen_add_plan_complete gen_remove_plan_complete gen_plans_typed eq_refl). Qed.
+Print Assumptions C03_extended_step_partial.
+
+(* ... hence every history of core and extended calls without deepCopy, from the empty state *)
+Theorem C03_invariant_extended_partial : forall ops s', forallb (fun o => negb (is_deep_copy o)) ops = true ->
+  xrun_succ gen_plans ops empty_state = Some s' -> WF s'.
+Proof.
+  exact (fun ops s' Hn => xwf_invariant gen_plans gen_add_plan_complete gen_remove_plan_complete gen_plans_typed eq_refl
+                                        ops empty_state s' Hn empty_wf).
+Qed.
+Print Assumptions C03_invariant_extended_partial.
+
+(* the object_creation helpers are such histories *)
+Theorem C03_object_creation_helpers_covered : forall d base short,
+  forallb (fun o => negb (is_deep_copy o)) (simple_object_ops d base short) = true.
+Proof. exact simple_object_ops_no_deep_copy. Qed.
+Print Assumptions C03_object_creation_helpers_covered.
 
 (* what well-formed means: listed once; listed by a document exactly when that document is the parent (hence by no
    other document); everything a parented element references - through any of the fifteen kinds, complementary
